@@ -20,6 +20,12 @@ use super::{
     model::RaftIndexDto,
 };
 
+/// Longest index file that cannot hold a saved record: the 8 byte last_applied header plus the
+/// zero length of an empty RaftIndex is 9 bytes (10 as written by earlier versions), while the
+/// smallest non-empty record needs 8 + 1 (length) + 2 (one field) = 11 bytes.
+/// Any longer file must be read, not re-initialised.
+const EMPTY_INDEX_FILE_LEN: u64 = 10;
+
 pub struct RaftIndexInnerManager {
     file: tokio::fs::File,
     pub(crate) raft_index: RaftIndexDto,
@@ -37,7 +43,7 @@ impl RaftIndexInnerManager {
             .await?;
         let meta = file.metadata().await?;
         //log::info!("index file len:{}",meta.len());
-        let (last_applied_log, raft_index) = if meta.len() <= 20 {
+        let (last_applied_log, raft_index) = if meta.len() <= EMPTY_INDEX_FILE_LEN {
             //init write
             let index = RaftIndex::default();
             /*
@@ -50,10 +56,9 @@ impl RaftIndexInnerManager {
                 mark_remove: false,
             });
             */
-            let mut buf = Vec::new();
+            // raw 8 byte last_applied header (no length prefix), then the length-prefixed RaftIndex
+            let mut buf = id_to_bin(0);
             let mut writer = Writer::new(&mut buf);
-            let header_buf = id_to_bin(0);
-            writer.write_bytes(&header_buf)?;
             writer.write_message(&index)?;
             file.seek(std::io::SeekFrom::Start(0)).await?;
             file.write_all(&buf).await?;
